@@ -1,7 +1,7 @@
 #!/bin/sh
 # usage: seedsweep.sh <out-file> <seed-id> [...]   seed-id = Cxx-N (directory under /verif/seeded)
 # For each seed: apply patch.diff to /repo, run the property's quick check, restore /repo.
-# Never leaves /repo modified.
+# Never leaves /repo modified. Evidence of these runs on MODIFIED trees goes to .work/sweep-evidence, never to evidence/.
 out="$1"; shift
 : > "$out"
 for s in "$@"; do
@@ -12,7 +12,7 @@ for s in "$@"; do
   if ! git apply "$dir/patch.diff" 2>/dev/null; then echo "$s PATCH-DOES-NOT-APPLY" >> "$out"; continue; fi
   cd /verif
   start=$(date +%s)
-  ./check "$prop" quick > /verif/.work/sweep.log 2>&1
+  VERIF_EVIDENCE_DIR=/verif/.work/sweep-evidence ./check "$prop" quick > /verif/.work/sweep.log 2>&1
   rc=$?
   end=$(date +%s)
   v=$(grep -c "^VIOLATION" /verif/.work/sweep.log)
